@@ -96,3 +96,65 @@ fn k19_write_read_roundtrip() {
     let mut src: &[u8] = &buf;
     assert!(matches!(ShapeType::read_from(&mut src), Ok(x) if x == t));
 }
+
+/// a fixed-capacity `fmt::Write` sink (no allocation): what `Display` prints is collected byte by byte
+struct Buf {
+    b: [u8; 16],
+    n: usize,
+}
+impl core::fmt::Write for Buf {
+    fn write_str(&mut self, s: &str) -> core::fmt::Result {
+        let bytes = s.as_bytes();
+        let mut i = 0;
+        while i < bytes.len() {
+            if self.n < 16 {
+                self.b[self.n] = bytes[i];
+            }
+            self.n += 1;
+            i += 1;
+        }
+        Ok(())
+    }
+}
+fn name_is(buf: &Buf, name: &[u8]) -> bool {
+    if buf.n != name.len() {
+        return false;
+    }
+    let mut i = 0;
+    while i < name.len() {
+        if buf.b[i] != name[i] {
+            return false;
+        }
+        i += 1;
+    }
+    true
+}
+
+/// the displayed name of each of the 14 types is its ESRI name (whitepaper p.4, in the spelling of the statement)
+#[kani::proof]
+#[kani::unwind(14)]
+fn k19_display_names() {
+    use core::fmt::Write;
+    const NAMES: [(ShapeType, &[u8]); 14] = [
+        (ShapeType::NullShape, b"NullShape"),
+        (ShapeType::Point, b"Point"),
+        (ShapeType::Polyline, b"Polyline"),
+        (ShapeType::Polygon, b"Polygon"),
+        (ShapeType::Multipoint, b"Multipoint"),
+        (ShapeType::PointZ, b"PointZ"),
+        (ShapeType::PolylineZ, b"PolylineZ"),
+        (ShapeType::PolygonZ, b"PolygonZ"),
+        (ShapeType::MultipointZ, b"MultipointZ"),
+        (ShapeType::PointM, b"PointM"),
+        (ShapeType::PolylineM, b"PolylineM"),
+        (ShapeType::PolygonM, b"PolygonM"),
+        (ShapeType::MultipointM, b"MultipointM"),
+        (ShapeType::Multipatch, b"Multipatch"),
+    ];
+    let k: usize = kani::any();
+    kani::assume(k < 14);
+    let mut buf = Buf { b: [0u8; 16], n: 0 };
+    let r = write!(buf, "{}", NAMES[k].0);
+    assert!(r.is_ok());
+    assert!(name_is(&buf, NAMES[k].1));
+}
